@@ -179,6 +179,9 @@ def rule_reject_complete(ctx):
     for (role, ref, desc, site, key) in matched:
         ctx.ob("REJECT-COMPLETE", "%s: refusal is one of the documented faults: %s" % (role, ref), True, fn=key, site=site, detail=desc)
     for (role, desc, site, key) in extra:
+        if implied_refusal(facts, pm, rl, role, key, site):
+            ctx.ob("REJECT-COMPLETE", "%s: refusal is implied by a documented one: %s" % (role, desc), True, fn=key, site=site, detail="an emptiness test on a region that contains the documented region refuses only strings the documented test refuses too")
+            continue
         ctx.ob("REJECT-COMPLETE", "%s: undocumented refusal: %s" % (role, desc), False, fn=key, site=site, detail="this return is not in the fault table of C05: a legal spelling may be refused")
     # string shapes: the only refusal is !valid_type
     for role in ("string-finish", "cow-finish", "smartstring-finish"):
@@ -192,6 +195,32 @@ def rule_reject_complete(ctx):
                 if row["kind"] == "err":
                     ok = row["error"] == "ParseError::InvalidPackageType" and len(row["triggers"]) == 1 and row["triggers"][0][0] == "pred" and row["triggers"][0][1] == "is_valid_package_type" and row["triggers"][0][3] is False
                     ctx.ob("REJECT-COMPLETE", "%s: only refusal is an invalid type" % role, ok, fn=key, site=row["site"], detail=faults.describe_row(row))
+
+
+def contains_region(big, small):
+    """is `small` derived from `big` by further splitting/trimming (then: big empty => small empty)?"""
+    t = small
+    while isinstance(t, tuple) and len(t) == 3 and t[0] not in ("Input",):
+        if t == big:
+            return True
+        t = t[2]
+    return t == big
+
+
+def implied_refusal(facts, pm, rl, role, key, site):
+    """`Err(E) when empty(X)` is harmless for legal spellings if R-FAULT has `Err(E') when empty(Y)` with Y cut out of X:
+    every string it refuses is refused anyway (only the error kind may differ, which is C05's business)."""
+    for row in models.rejections(facts, key):
+        if row["kind"] != "err" or row["site"] != site:
+            continue
+        trigs = row.get("triggers", [])
+        if len(trigs) == 1 and trigs[0][0] == "empty" and trigs[0][2] is True:
+            X = trigs[0][1]
+            for ref in faults.reference_rows(rl):
+                if ref["role"] == role and ref["kind"] == "err" and "trigger" in ref and ref["trigger"][0] == "empty" and ref["trigger"][2] is True:
+                    if contains_region(X, ref["trigger"][1]):
+                        return True
+    return False
 
 
 RULES = [
